@@ -82,6 +82,17 @@ def run_pair(an, bn):
     res, _ = outcome(lambda: fm.data.prepare(fm.UNITS.Quantity(np.array([1.0]), ua),
                                              fm.Info(time=day(0), grid=fm.NoGrid(), units=bn)))
     obs["prep"] = res
+    # ... also when the output's metadata carries a fixed mask (the data is wrapped first)
+    if res == "ok" and obs["fac"]:
+        grid = fm.UniformGrid((3, 2))
+        info = fm.Info(time=day(0), grid=grid, units=bn, mask=np.array([[False], [True]]))
+        r2, val = outcome(lambda: fm.data.prepare(fm.UNITS.Quantity(np.array([[1.0], [1.0]]), ua), info))
+        if r2 != "ok":
+            obs["prep"] = r2
+        else:
+            got = float(np.ma.getdata(fm.data.get_magnitude(val))[0, 0, 0])
+            if smooth_vector(got) != obs["fac"]:
+                obs["linkfac"] = []
     return obs
 
 
